@@ -1194,6 +1194,7 @@ func runC04(c *core.Ctx) {
 	}
 	c04Growth(c, sdl, strats)
 	c04RefusedGrowth(c, sdl, strats)
+	c04RegisteredStruct(c)
 	c.R.Bound = "complete product (10 bases x 7 wrappers x value menu x deliveries x 3 strategies); input type extended by a later load (3 extensions x cold / warm root x 4 deliveries x 3 strategies)"
 }
 
@@ -1481,4 +1482,155 @@ func c04MembersForStrings(v CV, enumPos bool) CV {
 		return out
 	}
 	return v
+}
+
+// ---- an input type bound to a Go STRUCT (RegisterType): the value reaches a reflected method as that struct. Every numeric field
+// is given numbers around the limits of its Go type; a resolver that runs must find the number the client wrote in the field - a
+// number the Go type cannot hold is an error, not another number.
+
+type C04Reg struct {
+	Req    int32
+	Def    string
+	List   []int32
+	Nested *C04Reg
+	Fl     float64
+	Small  int8
+	Tiny   uint8
+	Mid    int16
+	Wide   int64
+	Word   uint32
+	F32    float32
+}
+type C04RegQuery struct{ got *C04Reg }
+type c04RegRoot struct{ Query *C04RegQuery }
+
+func (q *C04RegQuery) F(x *C04Reg) string { q.got = x; return "ok" }
+
+func c04RegisteredStruct(c *core.Ctx) {
+	const sdl = "input R { req: Int! def: String = \"dflt\" list: [Int!] nested: R fl: Float small: Int tiny: Int mid: Int wide: Int64 word: Int64 f32: Float }\ntype Query { f(x: R): String }\n"
+	ints := []int64{0, 1, -1, 127, 128, -128, -129, 255, 256, 300, 32767, 32768, -32769, 65536, math.MaxInt32, math.MinInt32, 4294967295, 4294967296, 1 << 40, -(1 << 40)}
+	floats := []string{"1.5", "0.1", "3.5e38", "-3.5e38", "1e39", "1e-50", "16777217"}
+	type cse struct {
+		field string
+		lit   string
+		json  interface{}
+		want  float64
+	}
+	var cases []cse
+	for _, f := range []string{"req", "small", "tiny", "mid", "wide", "word", "fl", "f32"} {
+		for _, n := range ints {
+			if (f != "wide" && f != "word") && (n > math.MaxInt32 || n < math.MinInt32) {
+				continue // not an Int: refused by the scalar before the struct is looked at (the main product covers that)
+			}
+			cases = append(cases, cse{f, fmt.Sprint(n), float64(n), float64(n)})
+		}
+	}
+	for _, f := range []string{"fl", "f32"} {
+		for _, t := range floats {
+			v, _ := strconv.ParseFloat(t, 64)
+			cases = append(cases, cse{f, t, v, v})
+		}
+	}
+	fieldOf := func(r *C04Reg, f string) float64 {
+		switch f {
+		case "req":
+			return float64(r.Req)
+		case "small":
+			return float64(r.Small)
+		case "tiny":
+			return float64(r.Tiny)
+		case "mid":
+			return float64(r.Mid)
+		case "wide":
+			return float64(r.Wide)
+		case "word":
+			return float64(r.Word)
+		case "fl":
+			return r.Fl
+		}
+		return float64(r.F32)
+	}
+	for ci, cs0 := range cases {
+		for di, del := range []string{"literal", "variable-json", "variable-default", "nested-literal", "in-list-literal"} {
+			if !c.OwnsIdx(1<<43 + int64(ci*8+di)) {
+				continue
+			}
+			if del == "in-list-literal" && cs0.field != "req" {
+				continue
+			}
+			c.Eval()
+			c.Nontrivial()
+			obj := "{req: 1, " + cs0.field + ": " + cs0.lit + "}"
+			jobj := map[string]interface{}{"req": 1.0, cs0.field: cs0.json}
+			if cs0.field == "req" {
+				obj, jobj = "{req: "+cs0.lit+"}", map[string]interface{}{"req": cs0.json}
+			}
+			query, vars := "", map[string]interface{}(nil)
+			look := func(r *C04Reg) (float64, bool) { return fieldOf(r, cs0.field), true }
+			switch del {
+			case "literal":
+				query = "{ f(x: " + obj + ") }"
+			case "variable-json":
+				query, vars = "query Q($v: R) { f(x: $v) }", map[string]interface{}{"v": jobj}
+			case "variable-default":
+				query = "query Q($v: R = " + obj + ") { f(x: $v) }"
+			case "nested-literal":
+				query = "{ f(x: {req: 7, nested: " + obj + "}) }"
+				look = func(r *C04Reg) (float64, bool) {
+					if r.Nested == nil {
+						return 0, false
+					}
+					return fieldOf(r.Nested, cs0.field), true
+				}
+			case "in-list-literal":
+				query = "{ f(x: {req: 7, list: [1, " + cs0.lit + "]}) }"
+				look = func(r *C04Reg) (float64, bool) {
+					if len(r.List) != 2 || r.List[0] != 1 {
+						return 0, false
+					}
+					return float64(r.List[1]), true
+				}
+			}
+			q := &C04RegQuery{}
+			root := ggql.NewRoot(&c04RegRoot{Query: q})
+			if err := root.ParseString(sdl); err != nil {
+				panic(core.EngineError{Msg: "C04 registered-struct schema refused: " + err.Error()})
+			}
+			if err := root.RegisterType(&C04Reg{}, "R"); err != nil {
+				panic(core.EngineError{Msg: "C04 registered-struct registration refused: " + err.Error()})
+			}
+			var res map[string]interface{}
+			pi := core.Safe(func() { res = root.ResolveString(query, "", deepCopyVars(vars)) })
+			cs := c04Case{Type: "R bound to the Go struct C04Reg, field " + cs0.field, Value: cs0.lit, Delivery: del, Strategy: "FS", Query: query, Vars: fmt.Sprintf("%#v", vars)}
+			attrs := map[string]string{"base": "registered-struct", "wrapper": cs0.field, "value": "number", "delivery": del}
+			switch {
+			case pi != nil:
+				cs.Diff = pi.Value
+				c.Violation("panic", map[string]string{"site": pi.Site, "class": pi.Class}, cs)
+			case q.got == nil:
+				if res["errors"] == nil {
+					cs.Diff = "the resolver did not run and there is no error"
+					c.Violation("missing-error", attrs, cs)
+				} else {
+					c.Outcome("over-rejected(allowed)")
+				}
+			default:
+				cs.Invoked, cs.Got = true, fmt.Sprintf("%+v", *q.got)
+				got, ok := look(q.got)
+				// the scalar Float is 32 bits wide in ggql (Float64 is the wide one): both Float fields hold the nearest float32 of
+				// the client's number, whatever the width of the Go field; a number beyond that range is no Float
+				want := cs0.want
+				if cs0.field == "f32" || cs0.field == "fl" {
+					want = float64(float32(want))
+				}
+				if !ok || got != want || math.IsInf(got, 0) {
+					cs.Diff = fmt.Sprintf("client wrote %s for %s, the struct holds %v", cs0.lit, cs0.field, got)
+					c.Outcome("nonconforming")
+					c.Violation("arg-nonconforming", attrs, cs)
+				} else {
+					c.Outcome("conforming")
+				}
+			}
+		}
+	}
 }
